@@ -79,6 +79,10 @@ func (p *Parser) GetLastEvaluatedT() base.T {
 		t = base.MakeUnknown()
 	}
 
+	if t == nil {
+		return *base.MakeUntyped()
+	}
+
 	return *t.DeepCopy()
 }
 
